@@ -23,7 +23,7 @@ RULE = ('a generated well-formed chart (<= 12 states) is edited by a seeded sequ
 COMPONENTS = {'real': ['sismic.model.Statechart (all editing methods, validate)', 'sismic.model.elements'], 'stub': []}
 ASSUMPTIONS = ['names are non-empty str; transitions passed to remove/rotate are registered objects',
                'the rejected operation is the fault; there is no clock or schedule in this property beyond the operation sequence',
-               'move_state under a non-composite parent is not judged (the property does not list it among the soundness conditions)']
+               'move_state accepts any existing state that is not the moved state or one of its descendants as new parent (also a basic, final or history state): such moves are successful edits and are judged like the others']
 LEVEL_TEXT = 'seeded stateful exploration against an independent 80-line tree model, with snapshot equality on every rejected call'
 LEVEL_NOTE = 'trusted: the tree model written from the docstrings of the editing methods'
 TECHNIQUE = 'seeded stateful operation sequences with rejected-operation faults, reference-model comparison after every call, shrinking, replay'
@@ -227,8 +227,9 @@ def run(ch, tier):
                 expect_err = 'into itself or a descendant'
             elif m.st[newp]['kind'] not in ('compound', 'orthogonal') or \
                     (m.st[nm]['kind'] in ('shallow', 'deep') and m.st[newp]['kind'] != 'compound'):
-                hist.append(('skipped move under a parent that cannot host it', nm, newp))
-                continue
+                # move_state documents no restriction on the kind of the new parent and accepts these moves (validate() keeps
+                # passing): they are successful edits like any other, and the tree has to stay a tree afterwards
+                res.stats['moves_under_a_parent_add_state_would_refuse'] += 1
             call = lambda: sc.move_state(nm, newp)   # noqa
             desc = ('move_state', nm, newp)
 
